@@ -233,18 +233,20 @@ def split_segments(ev):
     """events between marks -> list of (mark text, [events])"""
     segs = []
     cur = None
+    ended = False
     for e in ev:
         if e[0] == "mark":
             if e[1] == "end":
+                # what follows is the driver's Close(): held snapshots are released, parts removed - not history
                 cur = None
+                ended = True
                 continue
             cur = (e[1], [])
             segs.append(cur)
         elif cur is not None:
             cur[1].append(e)
-        else:
-            if e[0] != "other":
-                segs.append(("?", [e]))
+        elif not ended and e[0] != "other":
+            segs.append(("?", [e]))
     return segs
 
 
@@ -1196,8 +1198,8 @@ def main(tier):
         vlib.static_stage(_Spec, R)
         ctx = Ctx(tier, R)
         ctx.disagreements = []
-        nrand, maxb, all_upto, samples, nmut, full_big = {"quick": (7, 4, 4, 10, 30, 0),
-                                                            "thorough": (60, 8, 6, 40, 200, 2)}[tier]
+        nrand, maxb, all_upto, samples, nmut, full_big = {"quick": (4, 4, 4, 8, 20, 0),
+                                                            "thorough": (36, 8, 6, 32, 150, 2)}[tier]
         hists = [list(x) for x in DIRECTED]
         for f in sorted(os.listdir(os.path.join(vlib.VERIF, "corpus", PROP))) if os.path.isdir(os.path.join(vlib.VERIF, "corpus", PROP)) else []:
             for l in open(os.path.join(vlib.VERIF, "corpus", PROP, f)):
